@@ -106,6 +106,11 @@ struct Ctx {
 
 typedef std::function<Val(Ctx &, const Sx &)> OpFn;
 std::map<std::string, OpFn> &registry();
+// JSON printers for OBJ values, keyed by type tag
+std::map<std::string, std::function<std::string(const Val &)>> &obj_printers();
+struct RegPrinter {
+    RegPrinter(const char *tag, std::function<std::string(const Val &)> f) { obj_printers()[tag] = f; }
+};
 struct Reg {
     Reg(const char *name, OpFn f) { registry()[name] = f; }
 };
